@@ -63,6 +63,11 @@ impl SuperVersions {
         self.0.len()
     }
 
+    #[cfg(lsm_verif)]
+    pub(crate) fn verif_iter(&self) -> impl Iterator<Item = &SuperVersion> {
+        self.0.iter()
+    }
+
     pub fn free_list_len(&self) -> usize {
         self.len().saturating_sub(1)
     }
